@@ -44,27 +44,99 @@ def gen(ctx, n):
         c.cli.append(dict(kind="L", name=o["name"], toks=[oc.LEGAL[o["ty"]][-2]], opt=None))
         c.tags.add("legacy-name-on-cli")
         cs.append(c)
+    # string options whose values have blanks, tabs, quotes, '=', '#', white space at the ends (command line and parent file)
+    for k in range(max(12, n // 8)):
+        cs.append(oc.gen_stringy(ctx, "rs%d" % k))
+    for k, (opt, v) in enumerate([("output", "scan 01/run.h5"), ("InitialDistFile", "start dist/a b.h5"), ("Impedance", 'Z "measured".dat'),
+                                  ("tracking", "x\ty.txt"), ("output", "run#3.h5"), ("output", " lead.h5"), ("tracking", "trail.txt\t")]):
+        c = oc.OptCase("rt%d" % k)
+        c.cli = [dict(kind="L", name=opt, toks=[v], opt=opt)]
+        c.tags.update(["stringy", "string-kept" if oc.representable(v) else "string-lost"])
+        cs.append(c)
     for c in cs:
         for t in c.tags:
             ctx.count(t)
     return cs
 
 
+def string_text_tie(ctx, cs, res, dis):
+    """Ties the TEXT of configuration files to the extracted text model (Model/CfgText.v, family cfgtext):
+    (1) every parent file written with decorations (white space, comments): what boost's reader makes of the text, as
+        modelled, must be the items the option model was given;
+    (2) every string member after the original parse, with the name of its option: `reread` = what `--config saved` reads
+        back for the line save() writes (generated chain); the implementation's getter after the reload must be that
+        value (the token model cannot express a value that changes on the way: for those the expected value of compare()
+        is taken from here); the Python mirror of cfg_representable must agree with the extracted one.
+    -> {case id: {member: expected value after the reload}} for members whose value a line cannot hold"""
+    inf = oc.info()
+    sopts = [(o["name"], o["var"]) for o in oc.string_opts()]
+    devnull = set(v for k, v in inf["prog"]["tail"] if k == "devnull")
+    q, want = [], {}
+    for c in cs:
+        r = res[c.cid]
+        if hasattr(c, "raw_argv") or r["impl"] is None:
+            continue
+        if c.cfg is not None and c.cfg["state"] == "file" and c.cfg.get("decor"):
+            q.append(("file", "f_" + c.cid, oc.cfg_text(c.cfg["items"], c.cfg["decor"])))
+        if oc.status(r["impl"]) != "run":
+            continue
+        a = oc.impl_vars(r["impl"])
+        for name, var in sopts:
+            v = a.get(oc.GETTER.get(name, var))
+            if isinstance(v, str) and v != "":
+                want.setdefault((name, v), []).append((c, var))
+    keys = sorted(want)
+    for k, (name, v) in enumerate(keys):
+        q.append(("reread", "s%d" % k, name, v))
+    tm = oc.text_model(q)
+    expect = {}
+    for c in cs:
+        t = tm.get("f_" + c.cid)
+        if t is not None:
+            flat = [(n, x) for n, ts in c.cfg["items"] for x in ts]
+            if t["items"] != flat:
+                dis.append(dict(case=c.replay(), detail=dict(what="parent file text as the text model reads it differs from the items given to the option model",
+                                                             text_model=t["items"], items=flat), sig=dict(kind="options", stage="correspondence", what="file-text")))
+    for k, (name, v) in enumerate(keys):
+        t = tm["s%d" % k]
+        if t["repr"] != oc.representable(v):
+            dis.append(dict(case=dict(kind="string", name=name, value=v), detail="cfg_representable: extracted %s, Python mirror %s" % (t["repr"], oc.representable(v)),
+                            sig=dict(kind="options", stage="correspondence", what="representable-mirror")))
+        back = t["back"]
+        for c, var in want[(name, v)]:
+            r = res[c.cid]
+            if oc.status(r["impl"], "r") != "run":
+                continue            # judged by the oracle (the saved configuration must be accepted)
+            got = oc.impl_vars(r["impl"], "r").get(oc.GETTER.get(name, var))
+            pred = dict(back).get(name) if back is not None and len(back) == 1 else None
+            if pred is not None and var in devnull and pred == "/dev/null":
+                pred = ""
+            if pred is None or got != pred:
+                dis.append(dict(case=c.replay(), detail=dict(what="string option after the reload: implementation vs text model (reread of the generated save() chain)",
+                                                             option=name, original=v, saved_line=t["written"], text_model=back, impl=got),
+                                sig=dict(kind="options", stage="correspondence", what="string-reread")))
+            elif pred != v:
+                expect.setdefault(c.cid, {})[var] = pred
+            ctx.count("string-reread:%s" % ("kept" if pred == v else "changed"))
+    ctx.extra["string_values_reread"] = len(keys)
+    return expect
+
+
 def program_level(ctx, tg):
     """main.cpp: <output>.cfg is written before the run; re-reading it gives the getters of the original invocation"""
     wd = tempfile.mkdtemp(prefix="vc13", dir=os.path.join(VERIF, ".cache"))
     try:
-        av = ["-o", "res.h5", "-s", "32", "-T", "0.02", "-N", "100", "-n", "1", "--padding", "2", "-I", "1.2345678e-3",
+        av = ["-o", "res 01.h5", "-s", "32", "-T", "0.02", "-N", "100", "-n", "1", "--padding", "2", "-I", "1.2345678e-3",
               "-E", "1.23456789e9", "--VacuumGap", "0", "--config", "/dev/null"]
         r = subprocess.run(["timeout", "120", tg["inovesa"]] + av, cwd=wd, capture_output=True, text=True, env=vp_build.xdg_env())
-        cfgp = os.path.join(wd, "res.h5.cfg")
+        cfgp = os.path.join(wd, "res 01.h5.cfg")
         ok = r.returncode == 0 and os.path.exists(cfgp)
         before = ok and r.stdout.find("Saved configuiration") >= 0 and \
             r.stdout.find("Saved configuiration") < (r.stdout.find("Starting the simulation") if "Starting the simulation" in r.stdout else 10 ** 9)
         if not ok or not before:
             ctx.violation("impl-oracle", "binary: <output>.cfg is not written next to the results before the run",
                           case=dict(kind="binary", argv=av), observed=dict(rc=r.returncode, out=r.stdout[-300:], err=r.stderr[-200:]),
-                          expected="res.h5.cfg", sig=dict(kind="binary", clause="saved-name"))
+                          expected="res 01.h5.cfg", sig=dict(kind="binary", clause="saved-name"))
             return
         a = oc.OptCase("pa")
         a.raw_argv = ["inovesa"] + av
@@ -73,9 +145,15 @@ def program_level(ctx, tg):
         b.cfg = dict(file="saved_by_binary.cfg", state="file", items=[])
         res = None
         # the harness writes config files from items; here the file is the binary's own: copy it in by hand
-        text = open(cfgp).read()
-        b.cfg["items"] = [(l.split("=", 1)[0], [l.split("=", 1)[1]]) for l in text.splitlines() if l and not l.startswith("#")]
+        text = open(cfgp, newline="").read()
+        b.cfg["raw_text"] = text                 # the binary's file, byte for byte
         res = oc.run_cases(ctx, [a, b], tg)
+        if oc.status(res["pb"]["impl"]) != "run":
+            msg = res["pb"]["impl"].get("message")
+            ctx.violation("impl-oracle", "binary: the saved .cfg is not accepted by --config (%s)" % (oc.unesc(msg[0][0])[:120] if msg and msg[0] else oc.status(res["pb"]["impl"])),
+                          case=dict(kind="binary", argv=av, saved=text), observed=oc.status(res["pb"]["impl"]), expected="run",
+                          sig=dict(kind="binary", clause="reload-status"))
+            return
         va, vb = oc.impl_vars(res["pa"]["impl"]), oc.impl_vars(res["pb"]["impl"])
         for k, v in va.items():
             if k in ("_configfile", "_forcerun") or k in oc.NO_GETTER:
@@ -98,20 +176,32 @@ def run(ctx, cases=None):
                 "legacy aliases) plus the boundary cases of the round-trip proof; parse -> getters, save, parse --config saved -> getters; "
                 "every seventh case re-reads the saved file a second time with extra command-line options (`inovesa <extra> --config saved`: "
                 "the extra options must take their command-line values, everything else must be as originally). "
+                "String options (output, InitialDistFile, Impedance, tracking) with inner blanks, tabs, quotes, '=', backslashes, brackets "
+                "(a line of the file holds them) and with white space at an end or a '#' (it does not), on the command line and - decorated "
+                "with the white space and comments the reader drops - in the parent file; the text of every saved string line and of every "
+                "decorated parent file is judged against the extracted text model of boost's reader. "
                 "Model vs implementation: status, members, names and values of the saved lines, reload status and members. "
                 "Oracle on the implementation alone: every getter equal after reload, except run_anyway (deliberately not saved) and "
                 "alpha0 when a synchrotron frequency is given (unused then). Non-trivial: at least one member differs from its default.")
-    coq = vp_coq.full_check("C13", ctx, fams=("options",))
+    coq = vp_coq.full_check("C13", ctx, fams=("options", "cfgtext"))
     ctx.trusted.add("extraction of option names additionally uses ExtrOcamlString (DESIGN 4)")
     tg = ctx.build(harness=("impl_options",), want_binary=True)
     dis = []
-    if coq["extract_ok"]:
+    have_models = coq["extract_ok"]
+    if not have_models:
+        # a proof or the Props file no longer checks: the executable models (no proofs in their dependency closure beyond the
+        # option-model lemmas) are extracted all the same, so that the case stream can look for a failing input
+        have_models, why = vp_coq.extract_model(("options", "cfgtext"), ctx.log)
+        if not have_models:
+            ctx.notes.append("models not available for the case stream: " + why[-300:])
+    if have_models:
         cs = cases or gen(ctx, 500 if ctx.quick() else 10000)
         res = oc.run_cases(ctx, cs, tg)
+        expect = string_text_tie(ctx, cs, res, dis)
         for c in cs:
             r = res[c.cid]
             if not hasattr(c, "raw_argv"):
-                d = oc.compare(c, r, by_getter=False)
+                d = oc.compare(c, r, by_getter=False, reload_expect=expect.get(c.cid))
                 if d:
                     dis.append(dict(case=c.replay(), detail=d[:4], sig=dict(kind="options", stage="correspondence")))
             oc.oracle_c13(ctx, c, r)
